@@ -8,7 +8,7 @@ For each lint `L` (model `L.lint`, the transcription of the Rust visitor; specif
                the documented condition.  Where the code as it is violates this, the theorem carries
                the hypothesis that excludes the defect and `L_defect` is a concrete program on which
                the model (= the code, by the correspondence run) reports an unjustified diagnostic.
-               (After the /repo fixes 9a12c1a, 1da8247, 13926c7, ca6ead7, e3c77cd only duplicate_keys
+               (After the /repo fixes 9a12c1a, fe466a6, 1da8247, 13926c7, ca6ead7, e3c77cd only duplicate_keys
                still needs such a hypothesis; the former witnesses are now `…_fixed_…` theorems.)
 * `L_by_value` — where the code now judges literals by value: the pattern is reported in every context
                however its literals are spelled.
@@ -96,25 +96,22 @@ example : Canon.suspiciousReverseLoop (.stmt (Ex.loop "1")) ≠ [] ∧ Node.stmt
   refine ⟨by decide, ?_⟩
   simp [Ex.loop, nodesS]
 
-/-- a bound `≤ 1` spelled in any DECIMAL form (`1.0`, `1e0`, `10e-1`, `0.5`, …) is reported in every context -/
-theorem suspicious_reverse_loop_by_value_decimal (sp : Span) (v cm : Tok) (a : Expr) (t : Tok) (body : Block) (x : Expect)
-    (hx : x ∈ ByValue.suspiciousReverseLoop (.stmt (.numFor sp v cm a (.num t) .none body)))
-    (hdec : (decimalValue t.text.toList).isSome = true) (s : Stmt)
-    (hn : Node.stmt (.numFor sp v cm a (.num t) .none body) ∈ nodesS s) (ctx : BCtx) :
-    ∃ g ∈ SuspiciousReverseLoop.lint (ctx.plug s), x.matches g = true := by
-  obtain ⟨g, hg, hm⟩ := SuspiciousReverseLoop.hook_byValue_decimal _ x hx (by
-    intro sp' v' cm' a' t' b' heq
-    simp only [Node.stmt.injEq, Stmt.numFor.injEq, Expr.num.injEq] at heq
-    obtain ⟨_, _, _, _, ht, _⟩ := heq
-    rw [← ht]; exact hdec)
-  exact ⟨g, runLint_plug _ ctx s g ⟨_, hn, hg⟩, hm⟩
+/-- the lint's bound test is the by-value test for every spelling (`number_value`, /repo fe466a6) -/
+theorem bound_test_by_value (text : String) : numberValueLeOne text = leOneText text := numberValueLeOne_eq text
 
-example : ByValue.suspiciousReverseLoop (.stmt (Ex.loop "10e-1")) ≠ [] ∧ (decimalValue "10e-1".toList).isSome = true := by decide
+/-- a bound denoting a value `≤ 1`, spelled in any form (`1.0`, `1e0`, `10e-1`, `0.5`, `0x1`, `0X00`, …), is
+reported in every context -/
+theorem suspicious_reverse_loop_by_value (n : Node) (x : Expect) (hx : x ∈ ByValue.suspiciousReverseLoop n) (s : Stmt)
+    (hn : n ∈ nodesS s) (ctx : BCtx) : ∃ g ∈ SuspiciousReverseLoop.lint (ctx.plug s), x.matches g = true :=
+  canon_lift SuspiciousReverseLoop.hook_byValue hx hn ctx
 
-/-- remaining by-value miss: `for i = #t, 0x1 do end` (a hexadecimal spelling of a bound `≤ 1`) is not reported -/
-theorem suspicious_reverse_loop_miss_hex_one :
-    SuspiciousReverseLoop.lint (Ex.prog (Ex.loop "0x1")) = [] ∧ ByValue.suspiciousReverseLoop (.stmt (Ex.loop "0x1")) ≠ [] := by
-  decide
+example : ByValue.suspiciousReverseLoop (.stmt (Ex.loop "10e-1")) ≠ [] ∧ ByValue.suspiciousReverseLoop (.stmt (Ex.loop "0x1")) ≠ [] := by decide
+
+/-- formerly `suspicious_reverse_loop_miss_hex_one`: `for i = #t, 0x1 do end` is reported, in any context -/
+theorem suspicious_reverse_loop_fixed_hex_one (ctx : BCtx) :
+    ∃ g ∈ SuspiciousReverseLoop.lint (ctx.plug (Ex.loop "0x1")), g.primary = ⟨3, 6⟩ := by
+  refine ⟨{ code := "suspicious_reverse_loop", primary := ⟨3, 6⟩, msg := SuspiciousReverseLoop.message }, ?_, rfl⟩
+  exact runLint_plug _ ctx _ _ ⟨.stmt (Ex.loop "0x1"), by simp [Ex.loop, nodesS], by decide⟩
 
 /-! ### mixed_table -/
 
